@@ -12,6 +12,8 @@ R20.3 call boundaries: assembly kernels with private conventions are analysed in
       other callees follow the SysV ABI (caller-saved state undefined afterwards, rax defined).
 R20.4 a new message forgets the old one: in every _ctx_mgr_submit_*, under flags & FIRST, the stores that reset
       total_length, partial_block_buffer_length and the digest precede every read of them.
+R20.6 the public initialiser macro isal_hash_ctx_init defines ctx->status and ctx->error for every context type (a
+      compile-time witness: the macro expanded in a one-line function, clang IR inspected for the two stores).
 R20.5 manager init covers what submit / flush assume: every byte of the manager that a family's submit / flush
       assembly may read at a fixed offset before writing it is written on every path by the init function that
       family's ctx layer calls (memset, field stores, canonical counted loops).
@@ -20,6 +22,7 @@ R20.6 init functions define the whole object: every _aes_gcm_init_* body stores 
 NOT decided: dependence on lane-indexed manager memory (idle lanes) and on output-buffer prefill.
 """
 import collections
+import os
 import re
 
 import build
@@ -379,6 +382,36 @@ def run(chk):
                       "private_kernels_analysed_in_context": len(priv), "reports_on_confirmed_infeasible_paths": tot["confirmed_infeasible"]})
     ir_rules(chk, mods)
     r20_5(chk, lib, mods)
+
+    # ---- R20.6 the public context-initialiser macro defines both scalar fields a first submit reads
+    import subprocess
+    import tempfile
+    import shutil
+    wd = tempfile.mkdtemp(prefix="verif_w20_", dir=os.environ.get("VERIF_SCRATCH", "/var/tmp"))
+    try:
+        n206 = 0
+        for hdr, ty in (("sha1_mb.h", "ISAL_SHA1_HASH_CTX"), ("sha256_mb.h", "ISAL_SHA256_HASH_CTX"), ("sha512_mb.h", "ISAL_SHA512_HASH_CTX"), ("md5_mb.h", "ISAL_MD5_HASH_CTX"), ("sm3_mb.h", "ISAL_SM3_HASH_CTX")):
+            src_ = os.path.join(wd, "w.c")
+            with open(src_, "w") as fh:
+                fh.write('#include "multi_buffer.h"\n#include "%s"\nvoid verif_witness(%s *c) { isal_hash_ctx_init(c); }\n' % (hdr, ty))
+            rc = subprocess.run(["clang", "-O0", "-fno-discard-value-names", "-S", "-emit-llvm", "-I", os.path.join(build.REPO, "include"), "-o", os.path.join(wd, "w.ll"), src_], capture_output=True, text=True)
+            if rc.returncode != 0:
+                chk.broke("R20.6: the witness for isal_hash_ctx_init does not compile with %s: %s" % (hdr, rc.stderr.strip()[:200]))
+                continue
+            ll = open(os.path.join(wd, "w.ll")).read()
+            stored = set()
+            for fld in ("error", "status"):
+                mm = re.search(r"(%%%s\d*) = getelementptr inbounds %%struct\.%s" % (fld, ty), ll)
+                if mm and re.search(r"store i32 [^,]+, i32\* %s\b" % re.escape(mm.group(1)), ll):
+                    stored.add(fld)
+            n206 += 1
+            ok = stored == {"error", "status"}
+            chk.obligation("R20.6", ok, key=("ctx-init-macro", ty), sample={"type": ty, "fields_stored": sorted(stored)})
+            if not ok:
+                chk.finding(Finding("R20.6", "include/multi_buffer.h", "isal_hash_ctx_init", "ctx-init:" + ty, "isal_hash_ctx_init(%s *) stores %s; both ctx->status and ctx->error must be defined by it - isal_hash_ctx_error() and the first submit read them before anything else writes them" % (ty, sorted(stored) or "nothing"), loc="include/multi_buffer.h"))
+        chk.floor("context types checked for the initialiser macro", n206, 5)
+    finally:
+        shutil.rmtree(wd, ignore_errors=True)
     import selftest_x86
     ctl = selftest_x86.control_c20()
     chk.extra["positive_control"] = ctl
